@@ -33,7 +33,7 @@ Proof. exact NormProofs.roundtrip_equal. Qed.
 Theorem C03_norm_equal : forall e, defaults_typed e -> forall sid vs, has_type e (TStruct sid) (VStruct vs) ->
   veq e (TStruct sid) (norm_struct e sid (VStruct vs)) (VStruct vs).
 Proof. exact NormProofs.norm_veq. Qed.
-Theorem C03_code_schemas_roundtrip_equal : forall sid vs, tfin 8 env0 (TStruct sid) = true ->
+Theorem C03_code_schemas_roundtrip_equal : forall sid vs, fits_model sid = true ->
   has_type env0 (TStruct sid) (VStruct vs) ->
   exists v', decode env0 sid (encode env0 sid (VStruct vs)) = DOk v' [] /\ veq env0 (TStruct sid) v' (VStruct vs).
 Proof. exact RoundTripExamples.env0_roundtrip_equal. Qed.
@@ -63,7 +63,7 @@ Proof. exact RoundTripProofs.need_top. Qed.
 (* The first clause with NO side condition on the schema's size, kept visible. It is not a theorem of the MODEL: the
    model's fuel is 4*len+64, and a struct type with more members than that constant allows exhausts it (witness
    below: 41 members, three levels). This limits the model, not the code - the generated Go decoder has no fuel;
-   the theorems above cover every struct type with tneed + k <= 64 (the regenerated schemas need at most 44 + 2)
+   the theorems above cover every struct type with tneed + k <= 64 (the regenerated packet and test schemas need at most 44 + 8)
    and, with the explicit fuel hypothesis, every value of every struct type. *)
 Definition C03_roundtrip_statement : Prop :=
   forall e k sid vs, wf_schema k e -> has_type e (TStruct sid) (VStruct vs) ->
@@ -73,17 +73,22 @@ Theorem C03_model_fuel_limit :
   decode wide_schema 0 (encode wide_schema 0 (wide_deep 3)) = DFuel.
 Proof. exact RoundTripExamples.model_fuel_limit. Qed.
 
-(* instantiated on the schemas regenerated from the tree: they satisfy wf_schema, and every well-typed value
-   of every generated struct type with a finite type graph (all but the recursive test struct) round-trips *)
-Theorem C03_code_schemas_wf : wf_schema 2 env0.
+(* instantiated on the schemas regenerated from the tree: they satisfy wf_schema with typed defaults, and every
+   well-typed value of every generated struct type that fits the model (finite type graph, static depth bound
+   within the model's fuel constant: fits_model, decided by evaluation per struct type) round-trips; the packet types
+   and the test IDL's struct types are covered, the recursive test struct is not (C03_roundtrip applies to it).
+   Nothing here depends on how many struct types the tree generates or on their numbering. *)
+Theorem C03_code_schemas_wf : wf_schema 8 env0.
 Proof. exact RoundTripExamples.env0_wf_schema. Qed.
-Theorem C03_code_schemas_roundtrip : forall sid vs, tfin 8 env0 (TStruct sid) = true ->
+Theorem C03_code_schemas_roundtrip : forall sid vs, fits_model sid = true ->
   has_type env0 (TStruct sid) (VStruct vs) ->
   decode env0 sid (encode env0 sid (VStruct vs)) = DOk (norm_struct env0 sid (VStruct vs)) [].
 Proof. exact RoundTripExamples.env0_roundtrip. Qed.
-Theorem C03_code_schemas_finite :
-  filter (fun sid => negb (tfin 8 env0 (TStruct sid))) (seq 0 (length env0)) = [sid_verifidl_Rec].
-Proof. exact RoundTripExamples.env0_nonrecursive. Qed.
+Theorem C03_code_schemas_covered :
+  forallb fits_model [sid_requestf_RequestPacket; sid_requestf_ResponsePacket; sid_verifidl_Containers;
+                      sid_verifidl_Inner; sid_verifidl_Scalars; sid_verifidl_Tail] = true
+  /\ tfin 8 env0 (TStruct sid_verifidl_Rec) = false.
+Proof. exact RoundTripExamples.env0_covered. Qed.
 
 (* SECOND CLAUSE. The bytes WriteTo produces are a well-formed Tars encoding of the shape the schema prescribes:
    for every wf_schema environment, struct type and well-typed value (encoding shorter than 2^30 bytes), they
@@ -132,7 +137,7 @@ Print Assumptions C03_fuel_linear.
 Print Assumptions C03_model_fuel_limit.
 Print Assumptions C03_code_schemas_wf.
 Print Assumptions C03_code_schemas_roundtrip.
-Print Assumptions C03_code_schemas_finite.
+Print Assumptions C03_code_schemas_covered.
 Print Assumptions C03_wire_conformance.
 Print Assumptions C03_wire_member.
 Print Assumptions C03_int_narrowest.
